@@ -12,14 +12,17 @@ statement, (2) the error code / data the statement returns, (3) the FILES output
      it (NAME), appends to it (no second file appears), loads it and kills it;
    * the full FILES listing has an entry for every visible host file; a host file whose name is a
      legal 8.3 name in any case is listed as that name in upper case, and that listed name opens it.
- illegal class = a legal-length name with a character that DOS forbids (" * + , ; < = > ? [ ] | or a
+ illegal class = a name with a blank next to the dot (end of the trunk or start of the extension, otherwise
+                 legal: "TRAIL .TXT", "A. XT"), or
+                 a legal-length name with a character that DOS forbids (" * + , ; < = > ? [ ] | or a
                  control byte) or with a second dot within three characters after the first one: error 64
                  and an unchanged directory (a later second dot falls under the truncation of over-long
                  extensions, special class).
- special classes (trailing dots / blanks, leading blank, empty trunk, device names, names longer than
-                 8.3, bytes >= 0x7f, NUL, empty): only 'consistent and no crash': a BASIC error leaves
-                 the directory unchanged; a successful create yields at most one new file which the
-                 same name AND a re-capitalisation of it open again with the same data.
+ special classes (trailing dots / blanks and leading blanks of the WHOLE name, empty trunk, device names,
+                 names longer than 8.3, bytes >= 0x7f, NUL, empty): only 'consistent and no crash': a BASIC
+                 error leaves the directory unchanged; a successful create yields at most one new file,
+                 whose host name has no blank at an edge of trunk or extension (e.g. after clipping
+                 "ABCDEFG HI.TXT"), and which the same name AND re-capitalisations open again with the same data.
 """
 import os
 import random
@@ -39,9 +42,9 @@ META = {
         'with several files alive at once.'),
     'level_note': (
         'Trusted: os.listdir of the mount, the harness. Pinned: legal 8.3 names (see module docstring) and names with a '
-        'forbidden character / a second dot within the 3-character extension (error 64 for OPEN, SAVE, LOAD, NAME; KILL and FILES take a file MASK, '
+        'forbidden character / a second dot within the 3-character extension / a blank next to the dot (error 64 for OPEN, SAVE, LOAD, NAME, MKDIR; KILL and FILES take a file MASK, '
         'where 53 File not found is accepted as well). Not pinned, so only consistency is required: trailing dots and '
-        'blanks (incl. control white space), leading blanks, empty trunk (.EXT, hidden on POSIX), device names '
+        'blanks of the whole name (incl. control white space), leading blanks of the whole name, empty trunk (.EXT, hidden on POSIX), device names '
         'AUX/CON/NUL/PRN, names longer than 8.3 (pcbasic truncates), bytes 0x7f-0xff (GW-BASIC allows some), NUL, '
         'the empty name; host files whose names are not legal 8.3 names (long, forbidden characters, non-ASCII) must '
         'be LISTED (entry count) but no name is required to open them; host names that differ only in case are not '
@@ -54,7 +57,8 @@ META = {
                     'allowable DOS characters: A-Z a-z 0-9 blank ! # $ % & \' ( ) - @ ^ _ ` { } ~'],
     'require_counters': {'any': ['files_created', 'recap_opens_ok', 'recap_kills_ok', 'recap_renames_ok',
                                  'recap_files_listed', 'bas_extension_added', 'bas_extension_not_added',
-                                 'illegal_names_rejected', 'files_listings_compared', 'listed_names_reopened']},
+                                 'illegal_names_rejected', 'dot_adjacent_blank_rejected', 'files_listings_compared',
+                                 'listed_names_reopened']},
 }
 
 LETTERS = b'ABCDEFGHIJKLMNOPQRSTUVWXYZ'
@@ -127,10 +131,28 @@ def gen_legal(rng, taken, dotted=None):
     raise RuntimeError('no free name')
 
 
+def gen_dot_blank(rng):
+    """A name that is legal except for a blank at the end of the trunk and/or the start of the extension
+    (a blank next to the dot); lengths stay within 8.3 and the name does not end in a blank or a dot."""
+    base = gen_legal(rng, (), dotted=True)
+    trunk, ext, nd = split83(base)
+    k = rng.choice([1, 1, 1, 2])
+    how = rng.choice(['trunk', 'trunk', 'ext', 'ext', 'both'])
+    if how in ('trunk', 'both'):
+        trunk = trunk[:8 - k] + b' ' * k
+    if how in ('ext', 'both'):
+        tail = ext[:3 - min(k, 2)].rstrip(b' ') or b'X'
+        ext = b' ' * min(k, 2) + tail
+    return trunk + b'.' + ext
+
+
 def gen_illegal(rng):
     """A name of legal shape spoiled by one forbidden character or by a second interior dot."""
     base = gen_legal(rng, ())
     trunk, ext, nd = split83(base)
+    r = rng.random()
+    if r < 0.15:
+        return gen_dot_blank(rng), 'dot-adjacent-blank'
     r = rng.random()
     if r < 0.2:
         # a second dot within the first three characters after the first one (a later dot is cut off by
@@ -300,6 +322,9 @@ class Mount(object):
             key = 'recap:second-file-created-for-same-name'
         elif missing and not extra:
             key = 'host:file-missing'
+        elif extra and any(e.partition('.')[0] != e.partition('.')[0].strip(' ') or
+                           e.partition('.')[2] != e.partition('.')[2].strip(' ') for e in extra):
+            key = 'name:host-name-with-edge-blank'
         self.res.violation(key, '%s (name as spelled %r): host directory has extra %r, lacks %r' % (
             what, spelled, sorted(extra), sorted(missing)), case)
         # resynchronise the model with reality so that one fault is reported once
@@ -629,6 +654,8 @@ class Mount(object):
             code, out = self.ex(b'NAME N$ AS M$', case, N=old, M=name)
         elif op == 'name_old':
             code, out = self.ex(b'NAME N$ AS M$', case, N=name, M=b'FREE.NAM')
+        elif op == 'mkdir':
+            code, out = self.ex(b'MKDIR N$', case, N=name)
         elif op == 'kill':
             code, out = self.ex(b'KILL N$', case, N=name)
             accept = (64, 53)
@@ -646,6 +673,8 @@ class Mount(object):
             ok = False
         else:
             res.count('illegal_names_rejected')
+            if why == 'dot-adjacent-blank':
+                res.count('dot_adjacent_blank_rejected')
         if not self.check_host('after %s with illegal name %r' % (op, name), case, name):
             ok = False
         return ok
@@ -678,6 +707,13 @@ class Mount(object):
             ok = False
         elif len(new) == 1:
             res.count('special_names_created')
+            hn = sorted(new)[0]
+            ht, _, he = hn.partition('.')
+            if ht != ht.strip(' ') or he != he.strip(' '):
+                res.violation('special:%s-host-name-with-edge-blank' % cls,
+                              'creating %r left host file %r, whose trunk or extension begins or ends with a blank '
+                              '(not a legal 8.3 name)' % (name, hn), case)
+                ok = False
             for sp, what in ((name, 'same-name'), (recap(rng, name), 'recap'), (up(name), 'recap'), (name.lower(), 'recap')):
                 code2, out2 = self.ex(b'A$="":OPEN N$ FOR INPUT AS 1:LINE INPUT#1,A$:CLOSE', case, N=sp)
                 if code2 is None:
@@ -745,6 +781,10 @@ def directed_illegal():
         out.append((ch + b'Z', why))
     for n in (b'A.B.C', b'a..b', b'ab.c.d', b'a.b.c.d', b'x..y.z', b'long.na.me'):
         out.append((n, 'multi-dot'))
+    # a blank next to the dot: end of the trunk / start of the extension (name otherwise legal 8.3)
+    for n in (b'TRAIL .TXT', b'trail .txt', b'FOO .TXT', b'a .b', b'A. XT', b'x. y', b'a. b', b'A . B', b'a  .b', b'a.  b',
+              b'ABCDEFG .TXT', b'1234567 .123', b'12345678. 12', b'Q .~', b'{ . }', b'prog .bas', b'PROG. BA'):
+        out.append((n, 'dot-adjacent-blank'))
     return out
 
 
@@ -754,16 +794,14 @@ def directed_special():
         out.append((n, 'trailing-dot'))
     for n in (b'FOO ', b'foo.tx ', b'bar  ', b'foo.t  ', b'FOO\t', b'foo\r', b'foo.x\n', b'a.b\x0b', b'a\x0c'):
         out.append((n, 'trailing-blank'))
-    for n in (b'FOO .TXT', b'a .b'):
-        out.append((n, 'trunk-trailing-blank'))
-    for n in (b' FOO', b'  a.b', b'\tfoo', b'a. b'):
+    for n in (b' FOO', b'  a.b', b'\tfoo', b' a.b '):
         out.append((n, 'leading-blank'))
     for n in (b'.TXT', b'.a', b'.', b'..', b'...'):
         out.append((n, 'empty-trunk'))
     for n in (b'CON', b'con', b'Con', b'NUL', b'nul', b'PRN', b'prn', b'AUX', b'aux', b'CON.TXT', b'nul.x', b'LPT1', b'COM1'):
         out.append((n, 'device-name'))
     for n in (b'LongFileName', b'longfilename.text', b'A.TEXT', b'NINECHARS', b'ninechars.x', b'a.b123', b'x' * 40, b'y' * 250,
-              b'abcdefghi.jklm', b'12345678.1234', b'a.bcd.e', b'G7.kCD.c',
+              b'abcdefghi.jklm', b'12345678.1234', b'a.bcd.e', b'G7.kCD.c', b'ABCDEFG HI.TXT', b'abcdefg  x.y', b'A.BC D', b'a.b  cd',
               b'name.ext.more.dots'):
         out.append((n, 'overlong'))
     for n in (b'caf\x82', b'a\x7fb', b'\xff', b'na\xefve.t\xe9', b'\x80\x9a.\xa5'):
@@ -774,7 +812,7 @@ def directed_special():
     return out
 
 
-ILLEGAL_OPS = ['open_o', 'open_i', 'open_a', 'open_r', 'save', 'load', 'name_new', 'name_old', 'kill', 'files']
+ILLEGAL_OPS = ['open_o', 'open_i', 'open_a', 'open_r', 'save', 'load', 'name_new', 'name_old', 'mkdir', 'kill', 'files']
 
 
 # ---------------------------------------------------------------------------------------
@@ -979,8 +1017,11 @@ def gen_special(rng):
     if r == 1:
         return base + bytes(rng.choice(b' \t\r\n\x0b\x0c ') for _ in range(rng.randint(1, 3))), 'trailing-blank'
     if r == 2:
+        # over-long trunk / extension whose clipping to 8.3 leaves a blank at the cut
         t, e, nd = split83(base)
-        return t[:7] + b' ' + b'.' + (e or b'x'), 'trunk-trailing-blank'
+        if rng.random() < 0.5:
+            return (t + b'ABCDEFG')[:7] + b' ' + bytes(rng.choice(LETTERS) for _ in range(rng.randint(1, 4))) + b'.' + (e or b'x'), 'overlong'
+        return t + b'.' + (e + b'XY')[:2] + b' ' + bytes(rng.choice(LETTERS) for _ in range(rng.randint(1, 3))), 'overlong'
     if r == 3:
         return bytes(rng.choice(b' \t ') for _ in range(rng.randint(1, 2))) + base, 'leading-blank'
     if r == 4:
